@@ -304,11 +304,11 @@ theorem change_commands_prefix_of_script (b : Backend) (hb : b = .asa ∨ b = .i
       exact ⟨k, by rw [hcs, hpl, this]; simp [changeSends]⟩
   rcases hb with rfl | rfl | rfl
   · exact key (.forEach (asaCmd .change .cur ["_"])) (asaCmd .change .cur ["_"]) rfl (by decide)
-      (fun env' st h => cs_console_cmd "cmd" ["_"] (asaCheck .change ;; .ite .joined "$Cut.2 != \"\"" (asaCheck .change) .skip)
+      (fun env' st h => cs_console_cmd "cmd" ["_"] (asaCheck .change ;; .ite .joined "$v.2 != \"\"" (asaCheck .change) .skip)
         (by decide) env' st h) (by decide)
   · exact key (.forEach (iosCmd .change .cur ["_"])) (iosCmd .change .cur ["_"]) rfl (by decide)
       (fun env' st h => cs_console_cmd "cmd" ["_"]
-        (iosCheck .change ;; .ite .joined "$Cut.2 != \"\"" (iosCheck .change) .skip ;; .ite .never "$const" iosExtendReload .skip)
+        (iosCheck .change ;; .ite .joined "$v.2 != \"\"" (iosCheck .change) .skip ;; .ite .never "$v" iosExtendReload .skip)
         (by decide) env' st h) (by decide)
   · exact key _ _ rfl (by decide) cs_nsx_request (by decide)
 
@@ -344,7 +344,7 @@ def linuxExtras : List (List String) :=
    ["mv -f /etc/network/packet-filter.new /etc/network/packet-filter"]]
 
 def linuxCmdRest : Sess :=
-  linuxCheck .change ;; .ite .joined "$Cut.2 != \"\"" (linuxCheck .change) .skip ;;
+  linuxCheck .change ;; .ite .joined "$v.2 != \"\"" (linuxCheck .change) .skip ;;
   GetCmdOutput .probe (.lit "echo $?") ["echo $?"] ;;
   .ite (.not (.flag .status0)) "$r.conn.GetCmdOutput(\"echo $?\") != \"0\\n\""
     (.abort ["%s failed (exit status)", "_"]) .skip
